@@ -126,7 +126,8 @@ RelViolations(rel, a, b) ==
            THEN {<<"SKIP", "lein precondition">>}
          ELSE IF b.out # a.out THEN {<<"C09", "input_endings">>} ELSE {}
     [] rel = "tabs" ->
-         IF ~(a.in = b.in /\ SameCfgExcept(a, b, "tabs") /\ ~a.cfg.tabs /\ b.cfg.tabs /\ a.cfg.wrap >= INF /\ ~HasTab(a.in))
+         IF ~(a.in = b.in /\ SameCfgExcept(a, b, "tabs") /\ ~a.cfg.tabs /\ b.cfg.tabs /\ a.cfg.wrap >= INF /\ ~HasTab(a.in)
+              /\ a.cfg.tw * a.cfg.ci <= 255)           \* beyond: known finding F4 (the saturation is checked per line by C10_Units)
            THEN {<<"SKIP", "tabs precondition">>}
          ELSE IF ExpandLeadingTabs(b.out, a.cfg.tw) # a.out THEN {<<"C10", "tabs_expand_to_spaces">>} ELSE {}
     [] rel = "width" ->
